@@ -72,6 +72,10 @@ type Driver struct {
 // Open opens the underlying generic.Driver, and by extension the channel.Channel and Transport
 // objects. This should be called prior to executing any SendX methods of the Driver.
 func (d *Driver) Open() error {
+	// whatever level an earlier session on this driver was at, the new one starts wherever the device
+	// puts us
+	d.CurrentPriv = ""
+
 	err := d.Driver.Open()
 	if err != nil {
 		return err
